@@ -106,6 +106,12 @@ def recover(lib, p11drv, d, env, pred, what, stats):
                 if m[0]:
                     findings.append(('K-codec on a mutated directory (%s): %s' % (', '.join(what), m[0]), len(p.trace) - 1))
             op('fini')
+    if died is None:
+        # the application ends the ordinary way (exit() with the library loaded / dlclose() first): whatever C_Initialize did or
+        # failed to do, the library's own teardown must not kill the host process
+        r = op('endproc %s' % ('dlclose' if env else 'exit'))
+        if r.get('rv') == 'DIED' and died is None:
+            died = ('endproc (normal process exit after init answered %s)' % rv, 'DIED')
     err = p.stderr_text()
     if died:
         alloc = any(x in err for x in ('allocation-size-too-big', 'out-of-memory', 'bad_alloc', 'length_error'))
